@@ -585,6 +585,61 @@ Example C19_dst_start_of_week_example :
   z_get_end_of_week ny_table t 0 + SECOND - z_get_start_of_week ny_table t 1 = WEEK - HOUR.
 Proof. vm_compute. intuition reflexivity. Qed.
 
+(* ---- (f) relative week start over a table (the code REPAIRED by fixes/C19-dst-calendar-arithmetic.patch: AddDate(0,0,-7)
+   and AddDate(0,0,7k) instead of 168-hour shifts; C19_dst_relative_week_168h_refuted below shows that the code as
+   written violates the statement).  X = civil day of t; steps_back X w = the code first goes back a week (t's weekday,
+   Sunday counted 7, is before the requested one); latest_weekday X w = the latest civil day <= X whose weekday is w.
+   Hypotheses (decidable): when stepping back, t's wall clock a week earlier is regular; the midnights of the day the
+   week computation starts from (X or X - 7), of the day latest_weekday X w and of the resulting day are regular.
+   Then r0 (k = 0) is 00:00:00.0 of civil day latest_weekday X w — weekday w, at most 6 civil days before t's day,
+   not after t, the exact boundary of that civil day, and (tomorrow's midnight regular) the LATEST instant not after t
+   that reads weekday w 00:00:00.0; r is 00:00:00.0 exactly 7k CIVIL days later (weekday w), at 7k x 24 h minus the
+   offset change; the relative end / time of week are 23:59:59.0 / t's own wall clock on that civil day when those
+   wall clocks are regular there *)
+Theorem C19_dst_relative_week_start : forall B D z t w k, zone_okb B D z = true -> 2 * B <= D -> 0 <= w <= 6 ->
+  (steps_back (z_lday z t) w = true -> wall_regular z ((z_lday z t - 7) * DAY_S + z_sod z t) = true) ->
+  midnight_regular z (rel_week_base (z_lday z t) w) = true ->
+  midnight_regular z (latest_weekday (z_lday z t) w) = true ->
+  midnight_regular z (latest_weekday (z_lday z t) w + 7 * k) = true ->
+  let r := z_get_relative_start_of_week z t w k in
+  let r0 := z_get_relative_start_of_week z t w 0 in
+  z_lday z r0 = latest_weekday (z_lday z t) w /\
+  z_weekday_of z r0 = w /\ z_clock_of z r0 = (0, 0, 0) /\ nsec r0 = 0 /\
+  z_lday z r0 <= z_lday z t < z_lday z r0 + 7 /\ r0 <= t /\ t - r0 < WEEK + 2 * B * NS /\
+  (forall x, r0 <= x <-> latest_weekday (z_lday z t) w <= z_lday z x) /\
+  (midnight_regular z (z_lday z t + 1) = true ->
+     forall x, z_weekday_of z x = w -> z_clock_of z x = (0, 0, 0) -> nsec x = 0 -> x <= t -> x <= r0) /\
+  z_lday z r = z_lday z r0 + 7 * k /\
+  z_weekday_of z r = w /\ z_clock_of z r = (0, 0, 0) /\ nsec r = 0 /\
+  (forall x, r <= x <-> latest_weekday (z_lday z t) w + 7 * k <= z_lday z x) /\
+  r - r0 = (7 * k * DAY_S - (zoff z r - zoff z r0)) * NS /\
+  (wall_regular z ((latest_weekday (z_lday z t) w + 7 * k) * DAY_S + 86399) = true ->
+     let e := z_get_relative_end_of_week z t w k in
+     z_lday z e = z_lday z r /\ z_clock_of z e = (23, 59, 59) /\ nsec e = 0 /\
+     e + SECOND - r = (DAY_S - (zoff z e - zoff z r)) * NS) /\
+  (wall_regular z ((latest_weekday (z_lday z t) w + 7 * k) * DAY_S + z_sod z t) = true ->
+     let rt := z_get_relative_time_of_week z t w k in
+     z_lday z rt = z_lday z r /\ z_clock_of z rt = z_clock_of z t /\ nsec rt = nsec t).
+Proof. intros B D z t w k H. exact (dst_relative_week_start B D z t w k (zone_okb_ok B D z H)). Qed.
+Print Assumptions C19_dst_relative_week_start.
+
+Example C19_dst_relative_week_start_example :
+  (* the witness of C19_dst_relative_week_168h_refuted: New_York, Monday 2024-03-11 00:30 EDT, week starts on Tuesday:
+     steps back to Monday 2024-03-04 00:30 EST (regular), answer Tuesday 2024-03-05 00:00 EST; k = 1: Tuesday 2024-03-12
+     00:00 EDT, 167 h later *)
+  let t := 1710131400 * NS in
+  z_lday ny_table t = 19793 /\ steps_back 19793 2 = true /\ rel_week_base 19793 2 = 19786 /\ latest_weekday 19793 2 = 19787 /\
+  wall_regular ny_table ((19793 - 7) * DAY_S + z_sod ny_table t) = true /\ midnight_regular ny_table 19786 = true /\
+  midnight_regular ny_table 19787 = true /\ midnight_regular ny_table (19787 + 7 * 1) = true /\
+  midnight_regular ny_table (19793 + 1) = true /\
+  z_get_relative_start_of_week ny_table t 2 0 = 1709614800 * NS /\
+  z_get_relative_start_of_week ny_table t 2 1 - z_get_relative_start_of_week ny_table t 2 0 = WEEK - HOUR /\
+  (* Sunday 2024-03-10 12:00 EDT, week starts on Sunday: the transition day itself, 00:00 EST; k = -1: 2024-03-03 *)
+  steps_back 19792 0 = false /\ latest_weekday 19792 0 = 19792 /\ midnight_regular ny_table 19792 = true /\
+  z_get_relative_start_of_week ny_table (1710086400 * NS) 0 0 = 1710046800 * NS /\
+  z_date_of ny_table (z_get_relative_start_of_week ny_table (1710086400 * NS) 0 (-1)) = (2024, 3, 3).
+Proof. vm_compute. intuition reflexivity. Qed.
+
 (* ---- (g) the code AS WRITTEN before fixes/C19-dst-calendar-arithmetic.patch (168-hour weeks, AddDate applied to a
    moment that time.Date moved out of a gap) violates the property on the New_York table: the three defects of
    docs/C19-NOTES.md, now visible inside Coq (in fixed-offset zones the two forms are equal:
